@@ -642,7 +642,9 @@ CapTotal == CASE scn.ep = "SrvFirst" -> 2 * IntU + CapU
               [] scn.ep \in {"GetClassAdMax", "CliServerAd"} -> IntU + CapU
               [] scn.ep = "PassSockHeader" -> HdrU + 64
               [] OTHER -> CapU
-CapHonoured == CappedEP => consumed <= CapTotal + CapSlack + (IF Enc THEN 3 * IntU ELSE 0)
+\* (on an encrypting stream every string carries an IntU length prefix that is not
+\*  charged to the budget; a scenario has at most 2*ExprMax+2 <= 6 strings)
+CapHonoured == CappedEP => consumed <= CapTotal + CapSlack + (IF Enc THEN 8 * IntU ELSE 0)
 CapFails == (Done /\ capx) => status = "error"
 
 TypeOK == /\ status \in {"run", "value", "error", "panic"}
